@@ -19,6 +19,7 @@ PARTS += ["chordfns"]
 PARTS += ["chordfns_rotate"]
 PARTS += ["segindex"]
 PARTS += ["utilint"]      # mir_eval/util.py interval pre-processing -> MirGen/UtilInt.lean (C13)
+PARTS += ["multipitch"]   # mir_eval/multipitch.py count functions, resampling, metrics -> MirGen/Multipitch.lean (C18)
 
 
 def write_if_changed(path, text):
